@@ -6,8 +6,8 @@ import ast
 from ..common import AnalysisError, rel
 from ..callgraph import CallGraph
 from ..connmodel import ConnModel, CONN
-from .. import shared
-from ..terms import (SymEval, Sym, Const, CallT, MethT, ObjT, OpT, TupleT)
+from .. import shared, pathsum
+from ..pathsum import struct, show
 from . import c10
 
 ENC = 'minecraft.networking.encryption'
@@ -26,56 +26,87 @@ def run(report, db, tier):
                            'load_der_public_key', 'os.urandom']
     cg = CallGraph(db)
     M = ConnModel(db, cg)
-    S = SymEval(db)
+    PS = shared.summariser(db, cg, implicit_raises=False)
+
+    def value_of(fi):
+        """the single term a helper returns on all of its paths"""
+        vals = []
+        for p in PS.run(fi):
+            if p.returns:
+                vals.append(p.value)
+        uniq = []
+        for v in vals:
+            if struct(v) not in [struct(u) for u in uniq]:
+                uniq.append(v)
+        if len(uniq) != 1:
+            raise AnalysisError('%s: %d different results on its paths'
+                                % (fi.qualname, len(uniq)), fi.node,
+                                rel(fi.path))
+        return uniq[0]
+
+    def ext_call(t, dotted):
+        return t[0] == 'call' and t[1] == ('ext', dotted)
+
+    def arg(t, pos, name):
+        kw = dict(t[3])
+        if name in kw:
+            return kw[name]
+        return t[2][pos] if len(t[2]) > pos else None
     R1 = report.rule('R18.1', 'cipher = Cipher(AES(s), CFB8(s)) with the '
                      'same parameter as key and IV')
     fi = db.get_func(ENC, 'create_AES_cipher')
-    t = S.run(fi)
-    report.note('terms', '%s = %r' % (fi.name, t))
-    p = fi.params[0]
-    if not (isinstance(t, CallT) and t.func == CRY + 'ciphers.Cipher'):
-        raise AnalysisError('create_AES_cipher: not a Cipher(...) term: %r'
-                            % (t,), fi.node, rel(fi.path))
-    alg = t.args[0] if len(t.args) > 0 else t.kw('algorithm')
-    mode = t.args[1] if len(t.args) > 1 else t.kw('mode')
-    if isinstance(alg, CallT) and alg.func == CRY + 'ciphers.algorithms.AES' \
-            and len(alg.args) == 1 and isinstance(alg.args[0], Sym) and \
-            alg.args[0].name == p:
-        report.ok(R1, 'algorithm AES(%s)' % p)
+    t = value_of(fi)
+    report.note('terms', '%s = %s' % (fi.name, show(t)))
+    p = ('sym', fi.params[0])
+    if not ext_call(t, CRY + 'ciphers.Cipher'):
+        raise AnalysisError('create_AES_cipher: not a Cipher(...) term: %s'
+                            % show(t), fi.node, rel(fi.path))
+    alg = arg(t, 0, 'algorithm')
+    mode = arg(t, 1, 'mode')
+    if alg is not None and ext_call(alg, CRY + 'ciphers.algorithms.AES') \
+            and [struct(x) for x in alg[2]] == [p] and not alg[3]:
+        report.ok(R1, 'algorithm AES(%s)' % p[1])
     else:
         report.violation(R1, 'cipher:algorithm', fi.path, fi.node,
-                         fi.qualname, 'algorithm term is %r; the protocol '
-                         'prescribes AES keyed by the shared secret' % (alg,))
-    if isinstance(mode, CallT) and mode.func == CRY + 'ciphers.modes.CFB8' \
-            and len(mode.args) == 1 and isinstance(mode.args[0], Sym) and \
-            mode.args[0].name == p:
-        report.ok(R1, 'mode CFB8(%s): IV = key = shared secret' % p)
+                         fi.qualname, 'algorithm term is %s; the protocol '
+                         'prescribes AES keyed by the shared secret'
+                         % (show(alg) if alg else None))
+    if mode is not None and ext_call(mode, CRY + 'ciphers.modes.CFB8') \
+            and [struct(x) for x in mode[2]] == [p] and not mode[3]:
+        report.ok(R1, 'mode CFB8(%s): IV = key = shared secret' % p[1])
     else:
         report.violation(R1, 'cipher:mode', fi.path, fi.node, fi.qualname,
-                         'mode term is %r; the protocol prescribes CFB8 '
-                         'with the shared secret as IV' % (mode,))
+                         'mode term is %s; the protocol prescribes CFB8 '
+                         'with the shared secret as IV'
+                         % (show(mode) if mode else None))
 
     R2 = report.rule('R18.2', 'shared secret = 16 fresh random bytes per '
                      'login')
     gi = db.get_func(ENC, 'generate_shared_secret')
-    t = S.run(gi)
-    report.note('terms', '%s = %r' % (gi.name, t))
-    if isinstance(t, CallT) and t.func in ('os.urandom',
-                                           'secrets.token_bytes') and \
-            len(t.args) == 1 and isinstance(t.args[0], Const) and \
-            t.args[0].v == 16:
-        report.ok(R2, '%r' % (t,))
+    t = value_of(gi)
+    report.note('terms', '%s = %s' % (gi.name, show(t)))
+    if t[0] == 'call' and t[1] in (('ext', 'os.urandom'),
+                                   ('ext', 'secrets.token_bytes')) and \
+            t[2] == (('const', 16),) and not t[3]:
+        report.ok(R2, show(t))
     else:
         report.violation(R2, 'secret:source', gi.path, gi.node, gi.qualname,
-                         'the shared secret is %r; AES-128 needs 16 bytes '
-                         'from the OS random source' % (t,))
+                         'the shared secret is %s; AES-128 needs 16 bytes '
+                         'from the OS random source' % show(t))
     # called per encryption request, inside the arm; never at import time,
     # never stored
-    sites = cg.callers_of(gi)
+    inlined = set((db.norm_stats or {}).get('helpers', ()))
+    sites = [cs for cs in cg.callers_of(gi)
+             if '%s:%s' % (cs.caller.module.name, cs.caller.qualname)
+             not in inlined]
     lr = db.get_class(CONN, 'LoginReactor')
     react = db.own_method(lr, 'react')
+    known = pathsum.known_unit_pred()
     for cs in sites:
-        if cs.caller is react:
+        helper_of_react = known(cs.caller) and cs.caller.cls is lr and all(
+            c.caller is react or (known(c.caller) and c.caller.cls is lr)
+            for c in cg.callers_of(cs.caller))
+        if cs.caller is react or helper_of_react:
             report.ok(R2, 'generated inside LoginReactor.react')
         else:
             report.violation(R2, 'secret:site:%s' % cs.caller.qualname,
@@ -98,40 +129,39 @@ def run(report, db, tier):
     R3 = report.rule('R18.3', 'token and secret are RSA-encrypted with '
                      'PKCS#1 v1.5 under the server\'s DER key')
     ei = db.get_func(ENC, 'encrypt_token_and_secret')
-    t = S.run(ei)
-    report.note('terms', '%s = %r' % (ei.name, t))
-    if not (isinstance(t, TupleT) and len(t.items) == 2):
+    t = value_of(ei)
+    report.note('terms', '%s = %s' % (ei.name, show(t)))
+    if not (t[0] in ('tuple', 'list') and len(t[1]) == 2):
         raise AnalysisError('encrypt_token_and_secret: result is not a '
-                            'pair', ei.node, rel(ei.path))
-    for it, pname in zip(t.items, (ei.params[1], ei.params[2])):
-        okk = isinstance(it, MethT) and it.name == 'encrypt' and \
-            len(it.args) == 2 and isinstance(it.args[0], Sym) and \
-            it.args[0].name == pname
+                            'pair: %s' % show(t), ei.node, rel(ei.path))
+    for it, pname in zip(t[1], (ei.params[1], ei.params[2])):
+        okk = it[0] == 'call' and it[1][0] == 'attr' and \
+            it[1][2] == 'encrypt' and len(it[2]) == 2 and \
+            struct(it[2][0]) == ('sym', pname)
         if not okk:
             report.violation(R3, 'rsa:item:%s' % pname, ei.path, ei.node,
-                             ei.qualname, 'returned item %r is not the RSA '
-                             'encryption of %s' % (it, pname))
+                             ei.qualname, 'returned item %s is not the RSA '
+                             'encryption of %s' % (show(it), pname))
             continue
-        pad = it.args[1]
-        key = it.recv
-        if isinstance(pad, CallT) and pad.func == \
-                CRY + 'asymmetric.padding.PKCS1v15' and not pad.args:
+        pad = it[2][1]
+        key = it[1][1]
+        if ext_call(pad, CRY + 'asymmetric.padding.PKCS1v15') and \
+                not pad[2] and not pad[3]:
             report.ok(R3, '%s: PKCS1v15()' % pname)
         else:
             report.violation(R3, 'rsa:padding:%s' % pname, ei.path, ei.node,
-                             ei.qualname, '%s is padded with %r; the '
-                             'protocol prescribes PKCS#1 v1.5' % (pname, pad))
-        if isinstance(key, CallT) and key.func == \
-                CRY + 'serialization.load_der_public_key' and key.args and \
-                isinstance(key.args[0], Sym) and \
-                key.args[0].name == ei.params[0]:
+                             ei.qualname, '%s is padded with %s; the '
+                             'protocol prescribes PKCS#1 v1.5' % (
+                                 pname, show(pad)))
+        if ext_call(key, CRY + 'serialization.load_der_public_key') and \
+                key[2] and struct(key[2][0]) == ('sym', ei.params[0]):
             report.ok(R3, '%s: key = load_der_public_key(%s)' % (
                 pname, ei.params[0]))
         else:
             report.violation(R3, 'rsa:key:%s' % pname, ei.path, ei.node,
-                             ei.qualname, '%s is encrypted under %r, not '
+                             ei.qualname, '%s is encrypted under %s, not '
                              'the server\'s DER-encoded public key'
-                             % (pname, key))
+                             % (pname, show(key)))
 
     R4 = report.rule('R18.4', 'installation: one encryptor/decryptor pair '
                      'per login lives in the wrappers; cipher keyed by the '
